@@ -2,7 +2,7 @@
 from typing import Dict
 
 from .engine import Batch, Check
-from . import gen_a, gen_b, oracles_a, oracles_rules
+from . import gen_a, gen_b, gen_f, oracles_a, oracles_rules
 
 
 def _wd_c03(where):
@@ -154,11 +154,25 @@ def registry() -> Dict[str, Check]:
     )
     reg["C16"] = Check(
         "C16", {"C16"},
-        [Batch("A-halt", gen_a.gen_rules, 500, 10000, driver="A", budget_s=30.0, profile="halt")],
+        [Batch("A-halt", gen_a.gen_rules, 500, 10000, driver="A", budget_s=30.0, profile="halt"),
+         Batch("B-mix", gen_b.gen_history, 2000, 40000, driver="B", budget_s=5.0)],
         plugins=lambda: [oracles_rules.HaltPlugin(), oracles_a.SessionRulesPlugin()],
         nontrivial=lambda s: s["probes"].get("halt_triggered", 0) > 0,
         rule="Driver-A runs with trading halt rules and price-walking scripted agents; non-trivial = a halt was triggered.",
         need_probes=["halt_triggered", "halt_released_by_timeout", "halt_ended_by_session_end", "second_halt_moved_line",
                      "order_accepted_during_halt", "cancel_accepted_during_halt", "deviation_between_1x_and_moved_line"],
+    )
+    reg["C12"] = Check(
+        "C12", {"C12"},
+        [Batch("F-scripted", gen_f.gen_fund, 2000, 40000, driver="F", budget_s=30.0, profile="scripted"),
+         Batch("F-real", gen_f.gen_fund, 1000, 20000, driver="F", budget_s=30.0, profile="real")],
+        nontrivial=lambda s: s["probes"].get("scripted_covariance_checked", 0) + s["probes"].get("zero_vol_step", 0) > 0
+        and s["stats"].get("f_steps", 0) >= 20,
+        rule="Driver-F histories: 1-5 markets, random positive-definite correlations, generation chunks 2-9 or 100, "
+             "parameter changes and shocks at the current time; non-trivial = the covariance law was checked through the "
+             "randomness seam or an exact zero-volatility path was followed, over >= 20 steps.",
+        need_probes=["scripted_covariance_checked", "scripted_covariance_with_correlation", "scripted_linearity_checked",
+                     "zero_vol_step", "generation_chunk_boundary_crossed", "change_shock", "change_drift", "change_vol",
+                     "change_corr", "change_uncorr"],
     )
     return reg
